@@ -4,7 +4,7 @@
 
 #[cfg(test)]
 use chrono::NaiveDateTime;
-use chrono::{DateTime, Datelike, Duration, Local, TimeZone, Timelike};
+use chrono::{DateTime, Datelike, Duration, Local, LocalResult, TimeZone, Timelike};
 #[cfg(test)]
 use mock_instant::{SystemTime, UNIX_EPOCH};
 use rand::Rng;
@@ -172,6 +172,28 @@ impl<'de> serde::Deserialize<'de> for TimeTriggerInterval {
     }
 }
 
+/// Returns the given local wall-clock time. Around a daylight-saving transition a wall-clock
+/// time can be ambiguous (clocks set back) or not exist at all (clocks set forward); it is then
+/// interpreted with the UTC offset in force at `current` instead of panicking.
+fn local_time(
+    current: &DateTime<Local>,
+    year: i32,
+    month: u32,
+    day: u32,
+    hour: u32,
+    min: u32,
+    sec: u32,
+) -> DateTime<Local> {
+    match Local.with_ymd_and_hms(year, month, day, hour, min, sec) {
+        LocalResult::Single(time) => time,
+        _ => current
+            .offset()
+            .with_ymd_and_hms(year, month, day, hour, min, sec)
+            .unwrap()
+            .with_timezone(&Local),
+    }
+}
+
 impl TimeTrigger {
     /// Returns a new trigger which rolls the log once it has passed the
     /// specified time.
@@ -215,7 +237,7 @@ impl TimeTrigger {
             let n = n as i32;
             let increment = if modulate { n - year % n } else { n };
             let year_new = year + increment;
-            return Local.with_ymd_and_hms(year_new, 1, 1, 0, 0, 0).unwrap();
+            return local_time(&current, year_new, 1, 1, 0, 0, 0);
         }
 
         if let TimeTriggerInterval::Month(n) = interval {
@@ -226,9 +248,7 @@ impl TimeTrigger {
             let num_months_new = num_months + increment;
             let year_new = (num_months_new / 12) as i32;
             let month_new = (num_months_new) % 12 + 1;
-            return Local
-                .with_ymd_and_hms(year_new, month_new, 1, 0, 0, 0)
-                .unwrap();
+            return local_time(&current, year_new, month_new, 1, 0, 0, 0);
         }
 
         let month = current.month();
@@ -236,41 +256,35 @@ impl TimeTrigger {
         if let TimeTriggerInterval::Week(n) = interval {
             let week0 = current.iso_week().week0() as i64;
             let weekday = current.weekday().num_days_from_monday() as i64; // Monday is the first day of the week
-            let time = Local.with_ymd_and_hms(year, month, day, 0, 0, 0).unwrap();
+            let time = local_time(&current, year, month, day, 0, 0, 0);
             let increment = if modulate { n - week0 % n } else { n };
             return time + Duration::weeks(increment) - Duration::days(weekday);
         }
 
         if let TimeTriggerInterval::Day(n) = interval {
             let ordinal0 = current.ordinal0() as i64;
-            let time = Local.with_ymd_and_hms(year, month, day, 0, 0, 0).unwrap();
+            let time = local_time(&current, year, month, day, 0, 0, 0);
             let increment = if modulate { n - ordinal0 % n } else { n };
             return time + Duration::days(increment);
         }
 
         let hour = current.hour();
         if let TimeTriggerInterval::Hour(n) = interval {
-            let time = Local
-                .with_ymd_and_hms(year, month, day, hour, 0, 0)
-                .unwrap();
+            let time = local_time(&current, year, month, day, hour, 0, 0);
             let increment = if modulate { n - (hour as i64) % n } else { n };
             return time + Duration::hours(increment);
         }
 
         let min = current.minute();
         if let TimeTriggerInterval::Minute(n) = interval {
-            let time = Local
-                .with_ymd_and_hms(year, month, day, hour, min, 0)
-                .unwrap();
+            let time = local_time(&current, year, month, day, hour, min, 0);
             let increment = if modulate { n - (min as i64) % n } else { n };
             return time + Duration::minutes(increment);
         }
 
         let sec = current.second();
         if let TimeTriggerInterval::Second(n) = interval {
-            let time = Local
-                .with_ymd_and_hms(year, month, day, hour, min, sec)
-                .unwrap();
+            let time = local_time(&current, year, month, day, hour, min, sec);
             let increment = if modulate { n - (sec as i64) % n } else { n };
             return time + Duration::seconds(increment);
         }
